@@ -172,6 +172,15 @@ class Program:
             return ('ext', b[1])
         return None
 
+    def base_name(self, m: Module, b: ast.AST) -> str:
+        """last component of the name a base-class expression DENOTES: `from typing import NamedTuple as _NT; class X(_NT)` has base 'NamedTuple'"""
+        try:
+            r = self.resolve_expr(m, b)
+            if r is not None and r[0] == 'ext': return r[1].split('.')[-1]
+        except Exception:
+            pass
+        return ast.unparse(b).split('.')[-1]
+
     def resolve_expr(self, m: Module, e: ast.AST, _depth=0):
         """Resolve Name or dotted Attribute chains that denote package objects."""
         if isinstance(e, ResolvedNode): return e.r
@@ -228,7 +237,11 @@ class Program:
     def is_dataclass(self, cls: ast.ClassDef) -> bool:
         if any(d.split('(')[0].split('.')[-1] == 'dataclass' for d in self.decorators(cls)): return True
         # a typing.NamedTuple subclass is a record with declared fields, too (positional order = declaration order)
-        return any(ast.unparse(b).split('.')[-1] == 'NamedTuple' for b in cls.bases)
+        if any(ast.unparse(b).split('.')[-1] == 'NamedTuple' for b in cls.bases): return True
+        for m_ in self.modules.values():          # (the module of the class is not passed in: find it)
+            if any(c_ is cls for c_ in ast.walk(m_.tree) if isinstance(c_, ast.ClassDef)):
+                return any(self.base_name(m_, b) == 'NamedTuple' for b in cls.bases)
+        return False
 
     def is_frozen(self, cls: ast.ClassDef) -> bool:
         return any('frozen=True' in d.replace(' ', '') for d in self.decorators(cls))
